@@ -1031,6 +1031,11 @@ class Interp:
     def getattr_(self, obj, name, node):
         ctx = self.ctx
         obj = ctx.force(obj)
+        if isinstance(obj, VRef) and obj.classes == ('_TextSink',):
+            r = VAL.sink_attr(self, obj, name, node)
+            if r is not None:
+                return r
+            raise Unsupported('attribute %r of a text sink' % name, node)
         if isinstance(obj, VRef):
             r = self._getattr_multi(obj, name, node)
             if r is not None:
